@@ -20,7 +20,7 @@ from ..vh import VH, strip_root
 KF_FIRST = "KF-C08-first-registered-picks"
 
 
-def sensitive_names(ws, raw):
+def sensitive_names(ws, raw, real_scan=False):
     """names whose answers are known to depend on registration order (the recorded finding):
     >= 2 definitions AND (supplied through an import somewhere, or >= 2 candidates in one global tier,
     or part of a dependency graph built from the first-registered definition)."""
@@ -35,7 +35,9 @@ def sensitive_names(ws, raw):
         defs = raw["definitions"][n]
         tier_p = sum(1 for d in defs if d["plugin"] and not d["third_party"])
         tier_t = sum(1 for d in defs if d["third_party"])
-        if n in imported or tier_p >= 2 or tier_t >= 2:
+        # real scans register site-packages plugins sequentially (pytest's own package, then the entry points in
+        # directory / file order), so several third-party candidates alone do not make a name order-sensitive there
+        if n in imported or tier_p >= 2 or (tier_t >= 2 and not real_scan):
             sens.add(n)
     return sens, multi
 
@@ -221,7 +223,7 @@ def processes(ctx, ws, sens0, multi0):
             q = keyed_queries(p.call(op="queries", db=db, files=files))
             if base is None:
                 base = q
-                sens, multi = sensitive_names(ws, raw)
+                sens, multi = sensitive_names(ws, raw, real_scan=True)
             else:
                 ctx.judged()
                 judge(ctx, ws, base, q, sens, multi, ("process", threads, env.get("VERIF_DELAY")), root)
